@@ -35,6 +35,9 @@ type WebsocketConnection struct {
 	// the error message received for the closed connection
 	connectionClosedError error
 
+	// the connection is being closed locally on purpose
+	localCloseRequested bool
+
 	remoteSki string
 
 	muxConnClosed sync.Mutex
@@ -69,6 +72,20 @@ func (w *WebsocketConnection) connClosedError() error {
 	defer w.muxConnClosed.Unlock()
 
 	return w.connectionClosedError
+}
+
+func (w *WebsocketConnection) setLocalCloseRequested() {
+	w.muxConnClosed.Lock()
+	defer w.muxConnClosed.Unlock()
+
+	w.localCloseRequested = true
+}
+
+func (w *WebsocketConnection) isLocalCloseRequested() bool {
+	w.muxConnClosed.Lock()
+	defer w.muxConnClosed.Unlock()
+
+	return w.localCloseRequested
 }
 
 // check if the websocket connection is closed
@@ -145,6 +162,11 @@ func (w *WebsocketConnection) handlePing() {
 
 func (w *WebsocketConnection) closeWithError(err error, reason string) {
 	logging.Log().Debug(w.remoteSki, reason, err)
+	// a write failing because the connection is being closed on purpose is no connection error
+	if w.isLocalCloseRequested() {
+		w.close()
+		return
+	}
 	// release the pumps and the socket first, marking the connection closed beforehand
 	// would turn close() into a no-op
 	w.close()
@@ -304,6 +326,8 @@ func (w *WebsocketConnection) writeMessageWithoutErrorHandling(messageType int, 
 
 // shutdown the connection and all internals
 func (w *WebsocketConnection) CloseDataConnection(closeCode int, reason string) {
+	w.setLocalCloseRequested()
+
 	// send a close message to the remote side if we have a reason
 	if reason != "" {
 		_ = w.writeMessageWithoutErrorHandling(websocket.CloseMessage, websocket.FormatCloseMessage(closeCode, reason))
